@@ -1,6 +1,7 @@
 """C02/C10 recorder: the flux solver observed through a harness-side wrapper of the public method
 Pervaporation.get_partial_fluxes_from_permeate_composition (arguments + result of every call, in order)."""
 import math
+import signal
 
 from . import gen
 from .gen import pv
@@ -8,6 +9,8 @@ from .rec_activity import mix_desc
 from .trace import F
 
 BUDGET = 250000          # watchdog: evaluations after which a call is aborted by the harness
+CPU_GUARD_S = 60.0       # second watchdog, for code that no longer goes through the observed method: CPU seconds (user time of this
+                         # process, not wall-clock) after which a call is aborted; 250 000 evaluations take 15-25 CPU seconds
 KEEP_HEAD, KEEP_TAIL = 30, 30
 
 
@@ -48,8 +51,21 @@ class Wrapper:
     def start(self, budget=None):
         self.calls, self.tail, self.count = [], [], 0
         self.budget = budget or BUDGET
+        self.cpu_fired = False
+        try:
+            def on_cpu(signum, frame):
+                self.cpu_fired = True
+                raise Abort()
+            signal.signal(signal.SIGVTALRM, on_cpu)
+            signal.setitimer(signal.ITIMER_VIRTUAL, CPU_GUARD_S * max(1.0, self.budget / BUDGET))
+        except ValueError:          # not in the main thread of the process: only the evaluation counter guards
+            pass
 
     def stop(self):
+        try:
+            signal.setitimer(signal.ITIMER_VIRTUAL, 0.0)
+        except ValueError:
+            pass
         calls, tail, n = self.calls, self.tail, self.count
         self.calls = None
         return calls, tail, n
